@@ -1,6 +1,7 @@
 package main
 
 import (
+	"sort"
 	"fmt"
 	"strings"
 
@@ -18,6 +19,7 @@ func init() {
 }
 
 func runC12(c *Ctx) {
+	defer c12IllegalChar(c)
 	p := c.P
 	c.note("R1 position-funnel: Lexer.error, Parser.error and Evaluator.error each return {Message: msg, Line: G#1, Col: G#2, SrcLine: G#0} with G = one GetLineAndCol(lexer, offset) call; no other function of package lang allocates or stores into a SyntaxError / RuntimeError.")
 	type funnel struct{ name, want string }
@@ -282,4 +284,125 @@ func positionFromNode(p *Program, fn *ssa.Function, v ssa.Value) bool {
 		return false
 	}
 	return rec(v, 0)
+}
+
+// R6 illegal-character-position
+func c12IllegalChar(c *Ctx) {
+	p := c.P
+	c.note("R6 illegal-character-position: the `unexpected character` error of Lexer.Next is positioned at cursor-1; that is the offending byte exactly when one byte has been consumed since the token start was recorded. Obligation: on every path of Next from the store `tokenStart = pos` to that error return, exactly one call of Lexer.advance is executed (all paths enumerated; Next has no loop).")
+	nx := p.LangFunc("(*Lexer).Next")
+	if nx == nil {
+		c.undecided("R6", "Next", "", "anchor (*Lexer).Next not found")
+		return
+	}
+	var start *ssa.Store
+	for _, st := range storesToField(nx, "Lexer", "tokenStart", false) {
+		start = st
+	}
+	var target *ssa.Return
+	for _, r := range returnsOf(nx) {
+		if strings.Contains(p.Render(effectiveResults(r)[1]), "unexpected character") {
+			target = r
+		}
+	}
+	if start == nil || target == nil {
+		c.undecided("R6", "illegal-character-return", p.Pos(nx.Pos()), "the tokenStart store or the `unexpected character` return was not found in Next")
+		return
+	}
+	// the reported offset is pos - 1
+	pos := ""
+	for _, call := range callsIn(nx) {
+		if staticCalleeIs(call, "(*lang.Lexer).error") && call.Block() == target.Block() {
+			pos = p.RenderShort(call.Common().Args[1])
+		}
+	}
+	if pos == "" {
+		// the funnel may be inlined by the renderer: take the offset from the rendered error
+		r := p.Render(effectiveResults(target)[1])
+		if strings.Contains(r, "GetLineAndCol(l, (l.pos - 1))") {
+			pos = "(l.pos - 1)"
+		} else if strings.Contains(r, "GetLineAndCol(l, l.tokenStart)") {
+			pos = "l.tokenStart"
+		}
+	}
+	advancesIn := func(b *ssa.BasicBlock, after, before ssa.Instruction) int {
+		n := 0
+		for _, in := range b.Instrs {
+			if after != nil && in.Block() == after.Block() && instrIndex(in) <= instrIndex(after) {
+				continue
+			}
+			if before != nil && in.Block() == before.Block() && instrIndex(in) >= instrIndex(before) {
+				continue
+			}
+			if call, ok := in.(ssa.CallInstruction); ok && staticCalleeIs(call, "(*lang.Lexer).advance") {
+				n++
+			}
+			// a direct cursor move counts as well
+			if st, ok := in.(*ssa.Store); ok {
+				if sf, ok := fieldOfAddr(st.Addr); ok && sf.Is("Lexer", "pos") {
+					n++
+				}
+			}
+		}
+		return n
+	}
+	counts := map[int]int{}
+	paths := 0
+	overflow := false
+	onPath := map[*ssa.BasicBlock]bool{}
+	var dfs func(b *ssa.BasicBlock, n int)
+	dfs = func(b *ssa.BasicBlock, n int) {
+		if overflow {
+			return
+		}
+		if onPath[b] {
+			overflow = true // a cycle: not expected in Next
+			return
+		}
+		var after, before ssa.Instruction
+		if b == start.Block() {
+			after = start
+		}
+		if b == target.Block() {
+			before = target
+		}
+		n += advancesIn(b, after, before)
+		if b == target.Block() {
+			counts[n]++
+			paths++
+			if paths > 20000 {
+				overflow = true
+			}
+			return
+		}
+		onPath[b] = true
+		for _, s := range b.Succs {
+			dfs(s, n)
+		}
+		onPath[b] = false
+	}
+	dfs(start.Block(), 0)
+	if overflow || paths == 0 {
+		c.undecided("R6", "illegal-character-position", p.InstrPos(target), "the paths from the token start to the `unexpected character` return could not be enumerated (cycle or too many paths)")
+		return
+	}
+	c.Analysed["illegal_char_paths"] = paths
+	want := map[string]int{"(l.pos - 1)": 1, "l.tokenStart": -1}
+	w, known := want[pos]
+	if !known {
+		c.violated("R6", "illegal-character-position", p.InstrPos(target), "the `unexpected character` error is positioned at "+pos+", neither cursor-1 nor the token start")
+		return
+	}
+	if w == -1 {
+		c.ok("R6", "illegal-character-position", p.InstrPos(target), "positioned at the recorded token start")
+		return
+	}
+	var bad []string
+	for n, k := range counts {
+		if n != 1 {
+			bad = append(bad, fmt.Sprintf("%d path(s) with %d advance calls", k, n))
+		}
+	}
+	sort.Strings(bad)
+	c.check(len(bad) == 0, "R6", "illegal-character-position", p.InstrPos(target), fmt.Sprintf("exactly one byte consumed on each of the %d paths, so cursor-1 is the offending byte", paths), "the error is positioned at cursor-1 but "+strings.Join(bad, ", ")+" reach it: for those the reported column is not on the illegal character (and may fall on the next line)")
 }
